@@ -24,7 +24,7 @@ ASSUMPTIONS = ['in-memory ZooKeeper fake; a crash = the k-th mutating call of th
                'virtual clock with zero tick (time.time constant during a run); node mtimes set by the harness',
                'tempfile.tempdir redirected to a per-case directory (a dying archiver leaks its temp file by nature)']
 BUDGET = {'quick': (14, 22.0), 'thorough': (260, 280.0)}
-REQUIRED_REACH = {'*': ['cuts', 'cuts_mid_run', 'batches_archived', 'young_or_scheduled_kept', 'history_pruned', 'download_batch_checked']}
+REQUIRED_REACH = {'*': ['cuts', 'cuts_mid_run', 'batches_archived', 'young_or_scheduled_kept', 'history_pruned', 'download_batch_checked', 'bulky_cases']}
 
 NOW = 1700000000.0
 
@@ -58,6 +58,7 @@ def run(ctx):
         try:
             srv = zkfake.ZkServer(clock=clock.peek)
             srv.keep_log = True
+            srv.child_order, srv.order_salt = 'hash', str(idx)
             adm = srv.client('admin')
             for p in (z.SCHEDULED, z.FINISHED, z.TRACE_HISTORY, z.FINISHED_HISTORY, z.SERVER_TRACE_HISTORY):
                 adm.ensure_path(p)
@@ -70,11 +71,25 @@ def run(ctx):
             maxhist = rng.randint(1, 4)
             insts = ['proid.app%d#%010d' % (rng.randint(0, 2), rng.randrange(10 ** 4)) for _ in range(rng.randint(4, 12))]
             insts = sorted(set(insts))
+            # one case per shard archives a batch whose compressed snapshot is well above 1 MB (long event data)
+            bulky = idx == 1
+            if bulky:
+                batch = 1100
+                ctx.count('bulky_cases')
             scheduled = {i for i in insts if rng.random() < 0.35}
             for i in scheduled:
                 adm.create(z.path.scheduled(i), b'{}')
 
             def populate(round_no):
+                if bulky and round_no == 1:
+                    inst = [i for i in insts if i not in scheduled] or [insts[0]]
+                    scheduled.discard(inst[0])
+                    if adm.exists(z.path.scheduled(inst[0])):
+                        adm.delete(z.path.scheduled(inst[0]))
+                    import string as _string
+                    for n in range(1150):
+                        data = ''.join(rng.choice(_string.ascii_letters + _string.digits) for _ in range(520))
+                        adm.create(z.path.trace(inst[0], '%s,hostx,service_exited,%s' % (NOW - expires - 5000 - n, data)), b'')
                 for i in insts:
                     for n in range(rng.randint(0, 9)):
                         off = rng.choice([-5, -0.5, 0.5, 5, -1000, -100000, 100, 250]) - (3000 if round_no == 0 else 0)
@@ -206,7 +221,10 @@ def run(ctx):
                 if not set(want) <= set(got):
                     ctx.violation('download-batch-misses-events', '%s for %s: archived %s, download_batch returned %s' % (snap, inst, want, got), case=dict(case=idx))
             # every write is a crash point
-            for k in range(1, total + 1):
+            cut_points = range(1, total + 1)
+            if bulky:
+                cut_points = sorted({1, 2, 3, total // 2, total - 1, total} & set(range(1, total + 1)))
+            for k in cut_points:
                 srv.restore(base)
                 del srv.log[log0:]
                 cl = srv.client('archiver-cut-%d' % k)
